@@ -89,7 +89,8 @@ OptBalanced(vals, d) ==
   LET N == Len(vals)
       tot == SumSeq(vals)
       AbsI(x) == IF x < 0 THEN 0 - x ELSE x
-  IN Min({ AbsI(tot - 2 * SumOfIds(vals, S)) : S \in { S \in SUBSET (1..N) : AbsI(N - 2 * Cardinality(S)) <= d } })
+      \* (tot - s) - s rather than tot - 2*s: no intermediate exceeds the total (totals close to 2^31 are used to probe relative tolerances of 1e-9)
+  IN Min({ AbsI((tot - SumOfIds(vals, S)) - SumOfIds(vals, S)) : S \in { S \in SUBSET (1..N) : AbsI(N - 2 * Cardinality(S)) <= d } })
 
 ------------------------------------------------------------------------------
 \* All ways of writing R as an ordered sum of k non-negative integers.
